@@ -99,6 +99,9 @@ pub struct XCfg {
     pub max_active: u8,
     pub qmax: u8,
     pub wd: bool,
+    /// the multiplexer's outbound handle has a buffer of 0 messages (BufDnsStreamHandle::
+    /// with_buffer_size): a second request forwarded before the wire was drained cannot be sent
+    pub wire0: bool,
 }
 
 #[derive(Clone, Debug)]
@@ -108,7 +111,7 @@ pub struct XNode {
 }
 
 pub fn case_json(cfg: &XCfg, hist: &[XEv]) -> Value {
-    json!({"part": "exchange", "k": cfg.k, "max_active": cfg.max_active, "qmax": cfg.qmax, "wake_driven": cfg.wd,
+    json!({"part": "exchange", "k": cfg.k, "max_active": cfg.max_active, "qmax": cfg.qmax, "wake_driven": cfg.wd, "wire_buffer_0": cfg.wire0,
            "events": hist.iter().map(|e| e.name()).collect::<Vec<_>>()})
 }
 
@@ -118,6 +121,7 @@ pub fn case_from_json(v: &Value) -> Option<(XCfg, Vec<XEv>)> {
         max_active: v["max_active"].as_u64()? as u8,
         qmax: v["qmax"].as_u64()? as u8,
         wd: v["wake_driven"].as_bool().unwrap_or(false),
+        wire0: v["wire_buffer_0"].as_bool().unwrap_or(false),
     };
     let mut h = vec![];
     for e in v["events"].as_array()? {
@@ -192,7 +196,7 @@ impl ExSys {
     pub fn new(cfg: XCfg) -> ExSys {
         timers_reset();
         let sh = Arc::new(Mutex::new(StreamShared::default()));
-        let (h, wire) = BufDnsStreamHandle::new(addr());
+        let (h, wire) = if cfg.wire0 { BufDnsStreamHandle::with_buffer_size(addr(), 0) } else { BufDnsStreamHandle::new(addr()) };
         let stream = SimStream { sh: sh.clone(), addr: addr() };
         let mux = DnsMultiplexer::new(stream, h).with_max_active_requests(cfg.max_active as usize);
         let (handle, bg) = DnsExchange::<P>::from_stream(mux);
@@ -273,7 +277,7 @@ impl ExSys {
     }
 
     pub fn key(&self) -> Vec<u8> {
-        let mut k = vec![self.cfg.k, self.cfg.max_active, self.cfg.qmax, self.cfg.wd as u8];
+        let mut k = vec![self.cfg.k, self.cfg.max_active, self.cfg.qmax, self.cfg.wd as u8 | (self.cfg.wire0 as u8) << 1];
         let reg = self.sh.lock().unwrap().registered.is_some();
         k.push(
             self.closed as u8
@@ -548,6 +552,21 @@ impl ExSys {
         };
         let self_woken = self.wake.n.load(Ordering::SeqCst) > 0;
         let consumed = self.sh.lock().unwrap().popped - popped_before;
+        // what went on the wire in this poll; an id that an earlier, no longer pending request
+        // of this run carried means "re-run the history" - decided before anything is recorded,
+        // so that a re-run leaves no trace in the outcome counts
+        let mut cxn = Context::from_waker(Waker::noop());
+        let mut new_wire = vec![];
+        while let Poll::Ready(Some(m)) = self.wire.poll_next_unpin(&mut cxn) {
+            new_wire.push(m);
+        }
+        for m in &new_wire {
+            if let Some((id, _)) = wirekit::request_view(m.bytes()) {
+                if (0..n).any(|j| self.reqs[j].timer.is_some() && self.reqs[j].id == id && !(self.live(j) && !self.reqs[j].cancelled && !self.reqs[j].fired)) {
+                    return Err(StepErr::Restart);
+                }
+            }
+        }
         if let Some(l) = l.as_deref_mut() {
             l.outcome(if pr.is_ready() { "ex:background-completed" } else { "ex:background-pending" });
             if self.cfg.wd {
@@ -618,18 +637,62 @@ impl ExSys {
         self.last_scene = last_kind;
 
         // ---- step 3: requests that went on the wire in this poll
-        let mut cxn = Context::from_waker(Waker::noop());
-        let mut new_wire = vec![];
-        while let Poll::Ready(Some(m)) = self.wire.poll_next_unpin(&mut cxn) {
-            new_wire.push(m);
-        }
+        // Timeout futures are created by send_message in the order the background forwards the
+        // requests (submission order): a Busy refusal creates none, a request that was accepted
+        // but could not be written to the outbound handle has one without a wire message.
         let new_timers: Vec<usize> = (timers_before..timers_len()).collect();
-        if new_timers.len() != new_wire.len() {
-            if let Some(l) = l.as_deref_mut() {
-                l.outcome("obs:ex-timers-and-wire-messages-differ");
+        let on_wire_now: Vec<usize> = new_wire
+            .iter()
+            .filter_map(|m| wirekit::request_view(m.bytes()))
+            .filter_map(|(_, qs)| qs.first().and_then(|q| q.name.first().cloned()))
+            .filter_map(|lab| std::str::from_utf8(&lab[1..]).ok().and_then(|s| s.parse::<usize>().ok()))
+            .collect();
+        let mut timer_of: Vec<Option<usize>> = vec![None; n];
+        let mut next_timer = 0usize;
+        // first look at the callers of the requests that did not reach the wire
+        let mut seen: Vec<Option<(Option<String>, bool)>> = vec![None; n];
+        for i in 0..n {
+            if self.reqs[i].state == XState::Submitted && !on_wire_now.contains(&i) && self.reqs[i].rx.is_some() {
+                let (_, err, ended) = self.observe(i);
+                seen[i] = Some((err, ended));
             }
         }
-        for (w, m) in new_wire.iter().enumerate() {
+        // the background forwards everything that waits in one go (it loops until the channel is
+        // empty): if it took one request it took all of them
+        let any_taken = !on_wire_now.is_empty() || seen.iter().flatten().any(|(e, end)| e.is_some() || *end);
+        for i in 0..n {
+            if self.reqs[i].state != XState::Submitted {
+                continue;
+            }
+            if on_wire_now.contains(&i) {
+                timer_of[i] = new_timers.get(next_timer).copied();
+                next_timer += 1;
+                continue;
+            }
+            let (refused, busy) = match &seen[i] {
+                Some((err, ended)) if err.is_some() || *ended => (true, err.as_deref().map(|e| e.contains("busy")).unwrap_or(false) || err.is_none()),
+                Some(_) => (false, false),
+                // the caller is gone: with a 0-message outbound buffer everything forwarded after
+                // the first message of this poll is lost at the handle, otherwise only Busy
+                // keeps a forwarded request off the wire
+                None => (any_taken, !self.cfg.wire0),
+            };
+            if refused {
+                if !busy {
+                    next_timer += 1; // accepted by the multiplexer (timeout created), lost at the outbound handle
+                }
+                self.reqs[i].state = XState::Refused;
+                if let Some(l) = l.as_deref_mut() {
+                    l.outcome(if busy { "ex:request-refused-busy" } else { "ex:request-failed-at-the-outbound-handle" });
+                }
+            }
+        }
+        if next_timer != new_timers.len() {
+            if let Some(l) = l.as_deref_mut() {
+                l.outcome("obs:ex-timers-and-forwarded-requests-differ");
+            }
+        }
+        for (_w, m) in new_wire.iter().enumerate() {
             let Some((id, qs)) = wirekit::request_view(m.bytes()) else { continue };
             let who = qs.first().and_then(|q| q.name.first()).and_then(|lab| std::str::from_utf8(&lab[1..]).ok().and_then(|s| s.parse::<usize>().ok()));
             let Some(i) = who.filter(|i| *i < n) else {
@@ -648,7 +711,7 @@ impl ExSys {
             }
             self.sh.lock().unwrap().ids.push(id);
             self.reqs[i].id = id;
-            self.reqs[i].timer = new_timers.get(w).copied();
+            self.reqs[i].timer = timer_of[i];
             // a request whose caller is gone already is dropped by the sweep that follows
             self.reqs[i].state = if self.reqs[i].cancelled { XState::Cancelled } else { XState::Live };
             if let Some(l) = l.as_deref_mut() {
@@ -794,16 +857,17 @@ pub fn report(ctx: &Ctx, l: &mut Local, cfg: XCfg, hist: &[XEv], step: usize, f:
 }
 
 pub fn configs(thorough: bool) -> Vec<(Vec<XCfg>, usize)> {
-    let c = |k, max_active, qmax, wd| XCfg { k, max_active, qmax, wd };
+    let c = |k, max_active, qmax, wd| XCfg { k, max_active, qmax, wd, wire0: false };
+    let w0 = |k, qmax, wd| XCfg { k, max_active: 32, qmax, wd, wire0: true };
     if thorough {
         vec![
-            (vec![c(3, 32, 2, false), c(3, 1, 2, false), c(3, 2, 2, false), c(2, 32, 3, false)], 12),
-            (vec![c(3, 32, 2, true), c(3, 1, 2, true), c(3, 2, 2, true), c(2, 32, 3, true)], 13),
+            (vec![c(3, 32, 2, false), c(3, 1, 2, false), c(3, 2, 2, false), c(2, 32, 3, false), c(2, 0, 2, false), w0(3, 2, false)], 12),
+            (vec![c(3, 32, 2, true), c(3, 1, 2, true), c(3, 2, 2, true), c(2, 32, 3, true), c(2, 0, 2, true), w0(3, 2, true)], 13),
         ]
     } else {
         vec![
-            (vec![c(2, 32, 2, false), c(2, 1, 2, false), c(3, 32, 1, false)], 9),
-            (vec![c(2, 32, 2, true), c(2, 1, 2, true), c(3, 32, 1, true)], 10),
+            (vec![c(2, 32, 2, false), c(2, 1, 2, false), c(3, 32, 1, false), c(2, 0, 1, false), w0(3, 1, false)], 9),
+            (vec![c(2, 32, 2, true), c(2, 1, 2, true), c(3, 32, 1, true), c(2, 0, 1, true), w0(3, 1, true)], 10),
         ]
     }
 }
@@ -855,7 +919,7 @@ pub fn run(ctx: &Ctx) {
         });
         ctx.traces_validated.fetch_add(stats.transitions, Ordering::SeqCst);
         summary.push(json!({
-            "configs": cfgs.iter().map(|c| json!({"k": c.k, "max_active": c.max_active, "qmax": c.qmax, "wake_driven": c.wd})).collect::<Vec<_>>(),
+            "configs": cfgs.iter().map(|c| json!({"k": c.k, "max_active": c.max_active, "qmax": c.qmax, "wake_driven": c.wd, "wire_buffer_0": c.wire0})).collect::<Vec<_>>(),
             "depth": stats.depth_completed, "states": stats.states, "transitions": stats.transitions, "fixpoint": stats.fixpoint,
             "states_per_depth": stats.per_depth,
         }));
